@@ -43,6 +43,8 @@ pub enum ConvRes {
 thread_local! {
     /// the length-prefix form byte strings are encoded with (None: the shortest)
     static LENENC_FORM: std::cell::Cell<Option<u8>> = std::cell::Cell::new(None);
+    /// executions after the first leave the type table out (new-params-bound = 0)
+    static OMIT_TYPES_AFTER_FIRST: std::cell::Cell<bool> = std::cell::Cell::new(false);
 }
 
 impl PSem {
@@ -273,7 +275,8 @@ fn run_execs_ids(n: usize, execs: &[Vec<PSem>], ids: &[u32], flags: u8, iteratio
                 long: false,
             })
             .collect();
-        cmds.push(ClientCmd::new(cmd_execute(sid, flags, iterations, &exec_block(&ps, true))));
+        let with_types = k == 0 || !OMIT_TYPES_AFTER_FIRST.with(|o| o.get());
+        cmds.push(ClientCmd::new(cmd_execute(sid, flags, iterations, &exec_block(&ps, with_types))));
         expected.push(Cb::Execute {
             id: sid,
             params: e.iter().map(|p| (p.ty(), p.expect_raw())).collect(),
@@ -551,6 +554,49 @@ impl Family for Positions {
     fn describe(&self, idx: u64) -> J {
         let d = digits(idx, &[ALL_PARAM_TYPES.len() as u64, 2, ALL_PARAM_TYPES.len() as u64]);
         json!({"type_under_test": format!("{:#04x}", ALL_PARAM_TYPES[d[0] as usize]), "unsigned": d[1] == 1, "neighbour_type": format!("{:#04x}", ALL_PARAM_TYPES[d[2] as usize])})
+    }
+}
+
+/// executions that rely on the types bound earlier: for every (type code, unsigned) the first
+/// execution binds the table, the second and third leave it out and send other values of the same
+/// type (one- and two-parameter statements, every pair of types for the latter). Each value must
+/// be decoded with the persisted type of its position.
+struct Reexecutions {
+    two: bool,
+}
+impl Family for Reexecutions {
+    fn ambient(&self, idx: u64) -> u64 {
+        crate::engine::rot(idx)
+    }
+    fn name(&self) -> String {
+        if self.two { "re-executions-without-a-type-table-two-parameters".into() } else { "re-executions-without-a-type-table-every-type".into() }
+    }
+    fn len(&self) -> u64 {
+        let a = ALL_PARAM_TYPES.len() as u64 * 2;
+        if self.two { a * a } else { a }
+    }
+    fn run(&self, idx: u64, st: &mut Stats) -> Result<(), Violation> {
+        let a = ALL_PARAM_TYPES.len() as u64 * 2;
+        let t = |x: u64| (ALL_PARAM_TYPES[(x / 2) as usize], x % 2 == 1);
+        let table: Vec<(u8, bool)> = if self.two {
+            let d = digits(idx, &[a, a]);
+            vec![t(d[0]), t(d[1])]
+        } else {
+            vec![t(idx)]
+        };
+        st.nontrivial += 1;
+        st.bump("reexecutions_without_types");
+        let execs: Vec<Vec<PSem>> = (0..3).map(|k| table.iter().enumerate().map(|(i, (ty, u))| sample_of(*ty, *u, 5 * k + i + 1)).collect()).collect();
+        OMIT_TYPES_AFTER_FIRST.with(|o| o.set(true));
+        let r = run_execs(table.len(), &execs, st);
+        OMIT_TYPES_AFTER_FIRST.with(|o| o.set(false));
+        r.map_err(|mut v| {
+            v.msg = format!("types {:?} bound by the first execution only: {}", table, v.msg);
+            v
+        })
+    }
+    fn describe(&self, idx: u64) -> J {
+        json!({"index": idx, "two_parameters": self.two})
     }
 }
 
@@ -941,6 +987,8 @@ pub fn build(quick: bool) -> Check {
         Box::new(Rebinds { mode: 1 }),
         Box::new(Rebinds { mode: 2 }),
         Box::new(Rebinds { mode: 4 }),
+        Box::new(Reexecutions { two: false }),
+        Box::new(Reexecutions { two: true }),
         Box::new(Bitmaps {
             max_all: if quick { 8 } else { 12 },
             big: if quick { vec![63, 64, 65, 255, 256, 300, 65529, 65535] } else { vec![63, 64, 65, 255, 256, 300, 4096, 32767, 32768, 65527, 65528, 65529, 65530, 65534, 65535] },
